@@ -289,6 +289,10 @@ def main(ctx):
         hs += inject_invalid(ctx.rng, base)
     check_histories(ctx, hs, OP_CLASS['C10'], 'rejected_add_is_noop', nontrivial_hist, tag=' (C10)')
     species_rejection_scenarios(ctx, ctx.scale(quick=12, thorough=200))
+    # (a') the event program of `add` regenerated from the source vs the lines real calls execute
+    from harness.addcheck import check_add_program
+
+    check_add_program(ctx)
     # (b) refusals and retries
     refusal_retry_cases(ctx, ctx.rng, ctx.scale(quick=10, thorough=100))
     # (c) exception at every step, (d) kill at every step
